@@ -63,7 +63,7 @@ def luby(i: int) -> int:
     while True:
         if i == (1 << k) - 1:
             return 1 << (k - 1)
-        if i >= (1 << (k - 1)):
+        if i < (1 << k) - 1:
             i -= (1 << (k - 1)) - 1
             k = 1
         else:
